@@ -334,13 +334,36 @@ Fixpoint ascending (l : list N) : bool :=
   | _ => true
   end.
 
+(** what a page's label consists of under a range set: style, prefix, numeric portion (no numeric
+    portion for style None).  Equal meanings give equal labels. *)
+Definition label_sem (t : list (N * label)) (page : N) : option (style * bytes * N) :=
+  match spec_floor t page with
+  | Some (k, l) =>
+      Some (l_style l, match l_prefix l with Some p => p | None => [] end,
+            if style_eqb (l_style l) SNone then 0 else l_start l + (page - k))
+  | None => None
+  end.
+
+Definition sem_eqb (a b : option (style * bytes * N)) : bool :=
+  match a, b with
+  | None, None => true
+  | Some (s1, p1, n1), Some (s2, p2, n2) => style_eqb s1 s2 && bytes_eqb p1 p2 && (n1 =? n2)
+  | _, _ => false
+  end.
+
+(** pages probed around every authored range start: start-1, start, start+1, start+27, and page 0 *)
+Definition probe_pages (ops : list (N * label)) : list N :=
+  0 :: flat_map (fun '(k, _) => [k - 1; k; k + 1; k + 27]) ops.
+
+(** the written number tree, read by an independent Table-159 reader, gives every probed page the
+    label the authored ranges give it (keys ascending, as a number tree requires).  Dropping an
+    entry is fine exactly when no label changes. *)
 Definition dict_prop_ok (ops : list (N * label)) (nums : list (Z * ldict)) : bool :=
   match read_nums nums with
   | None => false
   | Some t =>
       ascending (List.map fst t) &&
-      forallb (fun '(k, l) => match spec_authored ops k with Some a => label_eqb a l | None => false end) t &&
-      forallb (fun '(k, _) => existsb (fun '(k', _) => k' =? k) t) ops
+      forallb (fun p => sem_eqb (label_sem ops p) (label_sem t p)) (probe_pages ops)
   end.
 
 Definition dict_code (c : list (N * label) * list (Z * ldict)) : N :=
@@ -359,3 +382,79 @@ Definition styles : list style := [SDecimal; SUpperRoman; SLowerRoman; SUpperLet
 
 Definition first_bad_number (bound : N) : list (N * option N) :=
   List.map (fun s => (N.of_nat (style_index s), first_fail (fmt_cell_ok s) bound)) styles.
+
+(** * PageLabelTree as a state machine: interleaved add_range / get_label / get_all_labels / to_dict
+    on ONE tree.  The modelled tree has no state besides the range set, so every lookup is a pure
+    function of the ranges added so far. *)
+Inductive sop := SAdd (k : N) (l : label) | SGet (p : N) | SAll (n : N) | SDict.
+Inductive sout := SOLabel (r : result) | SOAll (l : list bytes) | SODict (d : list (Z * ldict)).
+
+Definition state_step (t : tree) (o : sop) : tree :=
+  match o with SAdd k l => add_range t k l | _ => t end.
+
+Definition state_after (t : tree) (ops : list sop) : tree := fold_left state_step ops t.
+
+(** get_all_labels: page i -> its label, or the decimal i+1 when no range is in force *)
+Definition all_labels (t : tree) (n : N) : list bytes :=
+  List.map (fun i => match get_label t i with
+                     | RLabel b => b
+                     | _ => to_decimal (i + 1)
+                     end) (List.map N.of_nat (seq 0 (N.to_nat n))).
+
+Fixpoint run_ops (t : tree) (ops : list sop) : list sout :=
+  match ops with
+  | [] => []
+  | SAdd k l :: r => run_ops (add_range t k l) r
+  | SGet p :: r => SOLabel (get_label t p) :: run_ops t r
+  | SAll n :: r => SOAll (all_labels t n) :: run_ops t r
+  | SDict :: r => SODict (tree_to_dict t) :: run_ops t r
+  end.
+
+(** the ranges added so far, in call order *)
+Fixpoint adds_of (ops : list sop) : list (N * label) :=
+  match ops with
+  | [] => []
+  | SAdd k l :: r => (k, l) :: adds_of r
+  | _ :: r => adds_of r
+  end.
+
+Definition sout_eqb (a b : sout) : bool :=
+  match a, b with
+  | SOLabel x, SOLabel y => result_eqb x y
+  | SOAll x, SOAll y => list_eqb bytes_eqb x y
+  | SODict x, SODict y => list_eqb (fun p q => Z.eqb (fst p) (fst q) && ldict_eqb (snd p) (snd q)) x y
+  | _, _ => false
+  end.
+
+(** spec of a history: every lookup is the §12.4.2 label under the ranges added SO FAR ([adds], in
+    call order); [lenient] additionally accepts the known letters >= 28 class *)
+Definition lookup_ok (lenient : bool) (adds : list (N * label)) (p : N) (r : result) : bool :=
+  spec_label_ok adds p r || (lenient && known_letters_class adds p).
+
+Fixpoint all_ok (lenient : bool) (adds : list (N * label)) (i : N) (l : list bytes) : bool :=
+  match l with
+  | [] => true
+  | b :: r => (match spec_floor adds i with
+               | None => true            (* no label dictionary in force: not constrained here *)
+               | Some _ => lookup_ok lenient adds i (RLabel b)
+               end) && all_ok lenient adds (i + 1) r
+  end.
+
+Fixpoint history_ok (lenient : bool) (adds : list (N * label)) (ops : list sop) (outs : list sout) : bool :=
+  match ops, outs with
+  | [], [] => true
+  | SAdd k l :: r, _ => history_ok lenient (adds ++ [(k, l)]) r outs
+  | SGet p :: r, SOLabel x :: o => lookup_ok lenient adds p x && history_ok lenient adds r o
+  | SAll n :: r, SOAll l :: o =>
+      (N.of_nat (length l) =? n) && all_ok lenient adds 0 l && history_ok lenient adds r o
+  | SDict :: r, SODict d :: o => dict_prop_ok adds d && history_ok lenient adds r o
+  | _, _ => false
+  end.
+
+(** bit 1: model history <> implementation; bit 2: some lookup / written tree is not what the
+    ranges added so far define; +8 when the only failures are in the known letters class *)
+Definition seq_code (c : list sop * list sout) : N :=
+  let '(ops, outs) := c in
+  let m := list_eqb sout_eqb (run_ops [] ops) outs in
+  let p := history_ok false [] ops outs in
+  code_of m p + (if p then 0 else if history_ok true [] ops outs then 8 else 0).
